@@ -295,8 +295,13 @@ inline Built build_case(const vf::Args* args = nullptr, vf::Evidence* ev = nullp
         for (const char* s : {"%z", "%Ez", "%E*z", "%:z", "%::z", "%:::z"}) {
           int i = find(s);
           if (i >= 0 && !f.zulu) {
-            int which = *vf::range<int>(0, 2);
+            int which = *vf::range<int>(0, 3);
             std::string sg(1, f.osign < 0 ? '-' : '+');
+            if (which == 3) {  // a dangling ':' after a complete hh or hh:mm group (nothing can absorb it: separators are never ':')
+              texts[i] = sg + fr::two(f.oh) + (*vf::range<int>(0, 1) ? ":" : ":" + fr::two(f.om) + ":");
+              if (std::string(s) == "%z") { texts[i] = sg + fr::two(f.oh) + fr::two(f.om) + ":"; }
+              note = "offset with a dangling ':'"; planted = true; break;
+            }
             if (which == 0) texts[i] = sg + *rc::gen::element<std::string>("24", "25", "99") + ":00";
             else if (which == 1) texts[i] = sg + fr::two(f.oh) + ":" + *rc::gen::element<std::string>("60", "99");
             else texts[i] = sg + fr::two(f.oh) + ":" + fr::two(f.om) + ":" + *rc::gen::element<std::string>("60", "99");
